@@ -9,13 +9,55 @@ open Lean DU Interop
           uncaught}, ctypes {communication, mobility, timer, trackVariable} (numeric enum values read
           off the implementation), extRange (bits of the range given to set_transmission_range)
   acts  : a request of the sim driver | ["track", key, value] | ["ext", method] |
-          ["onRefused", act, [alternatives]]
+          ["onRefused", act, [alternatives]] |
+          ["trackInc", key] | ["sendTracked", key] | ["sendCount"]   (see `RAct`)
+  optional, several wrapped instances of the one protocol class alive at once:
+          ids [id of instance 0, 1, ...] (default [id]), who [instance index per step] (default all 0),
+          legs {interop: [instances present], python: [...]} (default: all; the steps of an absent
+          instance are not delivered in that leg)
 -/
 namespace InteropDriver
 
+/-- what the table protocol remembers (protocol-local): how many callbacks this instance has
+    received, and what this instance last wrote to `provider.tracked_variables` -/
+structure PState where
+  seen : Nat
+  tv : List (String × String)
+
+def tvGet (tv : List (String × String)) (k : String) : Option String :=
+  (tv.find? (fun x => x.1 == k)).map (·.2)
+
+def tvSet (tv : List (String × String)) (k v : String) : List (String × String) :=
+  (k, v) :: tv.filter (fun x => x.1 != k)
+
+/-- an entry of a table row: a fixed action, or one whose content depends on what the instance has
+    seen / written so far
+      trackInc k    : `tv[k] = str(int(tv.get(k, "0")) + 1)`        (read-modify-write of a tracked variable)
+      sendTracked k : `broadcast(f"{k}={tv.get(k, '-')}")`           (a tracked variable read back into a request)
+      sendCount     : `broadcast(f"n={self.seen}")`                  (the instance counts its callbacks) -/
+inductive RAct
+  | act (a : Act Float)
+  | trackInc (k : String)
+  | sendTracked (k : String)
+  | sendCount
+
 inductive ASpec
-  | plain (a : Act Float)
-  | guarded (a : Act Float) (alt : List (Act Float))
+  | plain (a : RAct)
+  | guarded (a : RAct) (alt : List RAct)
+
+def natOfValue (v : String) : Nat :=
+  if v.length > 0 && v.all Char.isDigit then v.toNat?.getD 0 else 0
+
+/-- the action actually performed, and the instance's memory after it: what the instance reads back
+    from `tracked_variables` is what IT wrote last -/
+def resolve (s : PState) : RAct → Act Float × PState
+  | .act (.track k v) => (.track k v, { s with tv := tvSet s.tv k v })
+  | .act a => (a, s)
+  | .trackInc k =>
+    let v := toString (natOfValue ((tvGet s.tv k).getD "0") + 1)
+    (.track k v, { s with tv := tvSet s.tv k v })
+  | .sendTracked k => (.req (.broadcast (k ++ "=" ++ (tvGet s.tv k).getD "-")), s)
+  | .sendCount => (.req (.broadcast ("n=" ++ toString s.seen)), s)
 
 def extOfName : String → Except String ExtCall
   | "camera.take_picture" => pure .cameraTakePicture
@@ -50,25 +92,41 @@ def jsonOfAct : Act Float → Json
   | .track k v => Json.arr #["track", k, v]
   | .ext c => Json.arr #["ext", nameOfExt c]
 
+def ractOfJson (j : Json) : Except String RAct := do
+  let a ← j.getArr?
+  let name ← a[0]!.getStr?
+  match name with
+  | "trackInc" => pure (.trackInc (← a[1]!.getStr?))
+  | "sendTracked" => pure (.sendTracked (← a[1]!.getStr?))
+  | "sendCount" => pure .sendCount
+  | _ => pure (.act (← actOfJson j))
+
 def aspecOfJson (j : Json) : Except String ASpec := do
   let a ← j.getArr?
   let name ← a[0]!.getStr?
   if name == "onRefused" then
-    let r ← actOfJson a[1]!
-    let alt ← (← a[2]!.getArr?).toList.mapM actOfJson
+    let r ← ractOfJson a[1]!
+    let alt ← (← a[2]!.getArr?).toList.mapM ractOfJson
     pure (.guarded r alt)
-  else pure (.plain (← actOfJson j))
+  else pure (.plain (← ractOfJson j))
+
+/-- the alternatives of a guarded entry, then `k` -/
+def altProg (uncaught : Bool) : PState → List RAct → (PState → XProg Float PState) → XProg Float PState
+  | s, [], k => k s
+  | s, b :: bs, k =>
+    let r := resolve s b
+    .act r.1 (fun ok => if ok || !uncaught then altProg uncaught r.2 bs k else .raise r.2)
 
 /-- `uncaught`: the protocol does not wrap its provider calls in try/except — a refusal escapes -/
-def progOf (uncaught : Bool) : List ASpec → XProg Float Unit
-  | [] => .done ()
-  | .plain a :: rs =>
-    let rest := progOf uncaught rs
-    .act a (fun ok => if ok || !uncaught then rest else .raise ())
-  | .guarded a alt :: rs =>
-    let rest := progOf uncaught rs
-    .act a (fun ok => if ok then rest else
-      alt.foldr (fun b k => XProg.act b (fun ok' => if ok' || !uncaught then k else .raise ())) rest)
+def progOf (uncaught : Bool) : PState → List ASpec → XProg Float PState
+  | s, [] => .done s
+  | s, .plain b :: rs =>
+    let r := resolve s b
+    .act r.1 (fun ok => if ok || !uncaught then progOf uncaught r.2 rs else .raise r.2)
+  | s, .guarded b alt :: rs =>
+    let r := resolve s b
+    .act r.1 (fun ok => if ok then progOf uncaught r.2 rs else
+      altProg uncaught r.2 alt (fun s' => progOf uncaught s' rs))
 
 abbrev Table := Std.HashMap String (Bool × List ASpec)
 
@@ -85,13 +143,14 @@ def tableOfJson (j : Json) : Except String Table := do
     t := t.insert (SimDriver.trigKey n kind key time) (unc, acts)
   pure t
 
-def protoOfTable (t : Table) : XProto Float Unit :=
-  { init := (),
-    react := fun _ n time cb =>
+def protoOfTable (t : Table) : XProto Float PState :=
+  { init := { seen := 0, tv := [] },
+    react := fun s0 n time cb =>
+      let s : PState := { s0 with seen := s0.seen + 1 }
       let (kind, key) := SimDriver.cbKey cb
       match t.get? (SimDriver.trigKey n kind key time) with
-      | some (unc, acts) => progOf unc acts
-      | none => .done () }
+      | some (unc, acts) => progOf unc s acts
+      | none => .done s }
 
 def stepOfJson (j : Json) : Except String (Int × Callback Float) := do
   let a ← j.getArr?
@@ -136,32 +195,59 @@ def handlerName : Handler → String
 def jsonOfResult (r : Ext.Result) : Json :=
   Json.mkObj [("ok", toJson r.ok), ("touchesHandler", toJson r.touchesHandler), ("neutral", toJson r.neutral)]
 
+def natsOfJson (j : Json) : Except String (List Nat) := do
+  (← j.getArr?).toList.mapM (fun x => x.getNat?)
+
 def run (j : Json) : Except String Json := do
-  let id ← (← field j "id").getNat?
+  let id ← (fieldD j "id" (toJson (0 : Nat))).getNat?
   let steps ← (← (← field j "steps").getArr?).toList.mapM stepOfJson
+  let ids ← match j.getObjVal? "ids" with
+    | .ok v => natsOfJson v
+    | .error _ => pure [id]
+  let who ← match j.getObjVal? "who" with
+    | .ok v => natsOfJson v
+    | .error _ => pure (steps.map (fun _ => 0))
+  if who.length != steps.length then throw "who: one entry per step" else
+  let everyone := List.range ids.length
+  let legs := fieldD j "legs" (Json.mkObj [])
+  let inI ← match legs.getObjVal? "interop" with
+    | .ok v => natsOfJson v
+    | .error _ => pure everyone
+  let inP ← match legs.getObjVal? "python" with
+    | .ok v => natsOfJson v
+    | .error _ => pure everyone
   let table ← tableOfJson (← field j "table")
   let codes ← field j "ctypes"
   let extRange ← floatOfBits (fieldD j "extRange" (Json.str "0"))
   let P := protoOfTable table
-  let io := irun P (IW.init P id) steps
-  let py := prun pyAcc P (PW.init P id) steps
-  let ires := io.2.map (fun r => Json.mkObj [
+  let idOf (k : Nat) : NodeId := ids.getD k 0
+  let addressed := who.zip steps
+  let stepsI := addressed.filter (fun x => inI.contains x.1)
+  let stepsP := addressed.filter (fun x => inP.contains x.1)
+  -- every instance is created before the first callback, as OMNeT++ / SimulationBuilder do
+  let io := irunMulti P (fun k => IW.init P (idOf k)) stepsI
+  let py := prunMulti pyAcc P (fun k => PW.init P (idOf k)) stepsP
+  let ires := io.2.map (fun (_, r) => Json.mkObj [
     ("ret", match r.ret with
       | some L => Json.arr (L.map (jsonOfConsequence codes)).toArray
       | none => Json.null),
     ("transcript", jsonOfTranscript r.transcript)])
-  let untabled := steps.filterMap (fun (t, cb) =>
+  let untabled := (stepsI ++ stepsP).filterMap (fun (k, t, cb) =>
     let (kind, key) := SimDriver.cbKey cb
-    if table.contains (SimDriver.trigKey id kind key t) then none
-    else some (Json.str (SimDriver.trigKey id kind key t)))
+    if table.contains (SimDriver.trigKey (idOf k) kind key t) then none
+    else some (Json.str (SimDriver.trigKey (idOf k) kind key t)))
   -- the extension objects built directly on the interop-wrapped protocol
   let ext := allExt.map (fun c => Json.arr #[nameOfExt c, jsonOfResult (Ext.call .other c)])
     ++ [Json.arr #["comm.set_transmission_range", jsonOfResult (Ext.setRange Ext.Provider.other extRange)]]
+  let pending := (inI.map (fun k => (io.1 k).prov.consequences.length)).foldl (· + ·) 0
+  -- what each python-wrapped instance forwarded to the handlers, per instance in order
+  let pyLog := inP.map (fun k => Json.arr #[toJson k,
+    Json.arr ((py.1 k).prov.log.map (fun x => Json.arr #[handlerName x.1, SimDriver.jsonOfReq x.2])).toArray])
   pure (Json.mkObj [
     ("interop", Json.arr ires.toArray),
-    ("pending", toJson io.1.prov.consequences.length),
-    ("pyLog", Json.arr (py.1.prov.log.map (fun x => Json.arr #[handlerName x.1, SimDriver.jsonOfReq x.2])).toArray),
-    ("pyTranscripts", Json.arr (py.2.map jsonOfTranscript).toArray),
+    ("pending", toJson pending),
+    ("pyLog", Json.arr pyLog.toArray),
+    ("pyTranscripts", Json.arr (py.2.map (fun x => jsonOfTranscript x.2)).toArray),
     ("ext", Json.arr ext.toArray),
     ("untabled", Json.arr untabled.toArray)])
 
